@@ -37,6 +37,61 @@ def table_of(ids_hex):
   return tab
 
 
+def large_ids(N):
+  """N distinct ids for a large population (some with trailing zero bytes, some prefixes of others)."""
+  return [(b'c%05d' % i + (b'\x00' if i % 7 == 3 else b'')).hex() for i in range(N)]
+
+
+def case_ids(case):
+  return large_ids(case['ids_n']) if 'ids_n' in case else case['ids']
+
+
+class InjectedFault(OSError):
+  pass
+
+
+class FaultyData:
+  """A FederatedData whose dataset loading can be made to fail once (a transient storage error).
+
+  `arm(j)`: the j-th dataset load from now on (0-based, counted over `get_clients` yields and `get_client`
+  calls) raises InjectedFault instead; j = 0 fails before anything is yielded. One shot."""
+
+  def __init__(self, fd):
+    self._fd = fd
+    self._armed = None
+    self.triggered = False
+
+  def arm(self, j):
+    self._armed, self.triggered = j, False
+
+  def disarm(self):
+    self._armed = None
+
+  def _load(self):
+    if self._armed is not None:
+      if self._armed == 0:
+        self._armed, self.triggered = None, True
+        raise InjectedFault('injected transient storage error')
+      self._armed -= 1
+
+  def get_clients(self, client_ids):
+    it = iter(self._fd.get_clients(client_ids))
+    while True:
+      self._load()
+      try:
+        item = next(it)
+      except StopIteration:
+        return
+      yield item
+
+  def get_client(self, client_id):
+    self._load()
+    return self._fd.get_client(client_id)
+
+  def __getattr__(self, name):
+    return getattr(self._fd, name)
+
+
 def keydata(k):
   import jax
   try:
@@ -52,16 +107,24 @@ class C13(core.Property):
   CASE_TIMEOUT_S = 60
   ID = 'C13'
   RULE = ('cases = (backend in-memory/SQLite, id set incl. trailing-zero / prefix ids, seed, cohort size, '
-          'start round, history of sample()/set_round_num(r) calls) and streaming restarts (buffer, stream '
-          'seed, cohort, start round r0, k calls); non-trivial = history has >= 2 sample() calls with a jump, '
-          'or stream restart with r0 >= 1; distinct by case digest')
+          'start round, history of sample()/set_round_num(r) calls incl. sample() calls whose dataset loading fails '
+          'once - before the first client or after j clients of the lazy get_clients - followed by the plain retry), '
+          'large populations (1000..5000 one-example clients, cohorts 20..500 <= population/10, a few dozen rounds) '
+          'and streaming restarts (buffer, stream seed, cohort, start round r0, k calls); non-trivial = history has '
+          '>= 2 sample() calls with a jump or a failed sample, or stream restart with r0 >= 1; distinct by case digest')
   TRUSTED = ['numpy RandomState determinism and choice(replace=False) returning distinct members of its '
              'argument; jax.random.split giving distinct keys (all monitored on every observed cohort)',
              'the harness replicates one line of fedjax (mlcg_start = RandomState(seed).randint(1, 2**31-2)) '
              'to obtain the Lehmer start value the model takes as input']
   ASSUMPTIONS = ['round numbers < 2**31 (jax.random.PRNGKey(r) wraps modulo 2**32 without x64, so keys of '
                  'rounds r and r + 2**32 coincide; outside the tested domain)',
-                 'the streaming sampler is given a fresh iterator of the same seeded client stream']
+                 'the streaming sampler is given a fresh iterator of the same seeded client stream',
+                 'a sample() that raises hands out nothing and therefore must not consume its round (the caller '
+                 'retries with a plain sample()); faults are injected by a wrapper around the dataset (get_clients / '
+                 'get_client), not inside fedjax',
+                 'on large populations the fresh-sampler / re-seated comparison is made for the first two and the '
+                 'last round of the history and for every retry after a failure; distinctness, membership, keys and '
+                 'the exact comparison with RandomState(lehmer).choice are made for every round']
   QUICK_BUDGET_S = 100
   THOROUGH_BUDGET_S = 540
 
@@ -73,6 +136,7 @@ class C13(core.Property):
     self.jax, self.cs, self.mem, self.sql = jax, cs, mem, sql
     self.tmp = tempfile.mkdtemp(prefix='c13_')
     self.sql_cache = {}
+    self.big_cache = {}
     self.key_cache = {}
 
     atexit.register(self._cleanup)
@@ -87,15 +151,26 @@ class C13(core.Property):
 
   # ---------------------------------------------------------------- datasets
   def dataset(self, backend, ids_hex):
-    tab = table_of(ids_hex)
+    big = len(ids_hex) >= 500
+    if big and (backend, len(ids_hex)) in self.big_cache and self.big_cache[(backend, len(ids_hex))][2] == ids_hex:
+      return self.big_cache[(backend, len(ids_hex))][:2]
+    if big:      # 1-example datasets
+      tab = {bytes.fromhex(h): {'x': np.array([j], dtype=np.int32)} for j, h in enumerate(ids_hex)}
+    else:
+      tab = table_of(ids_hex)
     if backend == 'mem':
-      return self.mem.InMemoryFederatedData(tab), tab
+      fd = self.mem.InMemoryFederatedData(tab)
+      if big:
+        self.big_cache[(backend, len(ids_hex))] = (fd, tab, ids_hex)
+      return fd, tab
     key = tuple(ids_hex)
     if key not in self.sql_cache:
       path = os.path.join(self.tmp, f'd{len(self.sql_cache)}.sqlite')
       with self.sql.SQLiteFederatedDataBuilder(path) as b:
         b.add_many(list(tab.items()))   # insertion order = generated (shuffled) order
       self.sql_cache[key] = self.sql.SQLiteFederatedData.new(path)
+    if big:
+      self.big_cache[(backend, len(ids_hex))] = (self.sql_cache[key], tab, ids_hex)
     return self.sql_cache[key], tab
 
   def keys_of(self, r, n):
@@ -114,7 +189,7 @@ class C13(core.Property):
   def gen_cases(self, rng, tier):
     if tier == 'thorough':
       # exhaustive small scope: every history of length <= 3 over {sample, set 0, set 1, set 2}
-      alphabet = [-1, 0, 1, 2]
+      alphabet = [-1, 0, 1, 2, [-2, 0], [-2, 1]]
       for nc in (1, 2, 3, 4):
         ids = [x.hex() for x in [b'a', b'a\x00', b'a\x00\x00', b'b'][:nc]]
         for n in range(1, nc + 1):
@@ -122,8 +197,28 @@ class C13(core.Property):
             for ops in itertools.product(alphabet, repeat=L):
               yield {'kind': 'get', 'backend': 'mem' if (n + L) % 2 else 'sqlite', 'ids': ids, 'seed': nc + L,
                      'n': n, 'r0': 0, 'ops': list(ops) + [-1]}
-    ncases = 170 if tier == 'quick' else 1500
+    ncases = 150 if tier == 'quick' else 1500
+    large = {5: (2000, 100), 45: (1000, 100), 95: (5000, 200)} if tier == 'quick' else {
+        7 + 40 * j: (N, n) for j, (N, n) in enumerate(
+            [(1000, 100), (1000, 20), (2000, 100), (2000, 200), (2000, 50), (5000, 200), (5000, 120), (5000, 500),
+             (1000, 100), (3000, 300), (1500, 150), (2000, 100), (1000, 101), (999, 99), (5000, 20), (2000, 199)])}
     for i in range(ncases):
+      if i in large:
+        # large population, small cohort: a few dozen rounds, mostly sequential, some jumps, one failed load
+        N, n = large[i]
+        ops, r = [], 0
+        for _ in range(22 if tier == 'quick' else 40):
+          u = rng.random()
+          if u < 0.08:
+            ops.append(rng.randrange(0, 60))
+          elif u < 0.13:
+            ops.append([-2, rng.randrange(0, n)])
+            ops.append(-1)
+          else:
+            ops.append(-1)
+        yield {'kind': 'get', 'backend': 'sqlite' if (N == 1000 and rng.random() < 0.5) else 'mem', 'ids_n': N,
+               'seed': rng.choice([0, 1, rng.randrange(0, 2**32)]), 'n': n, 'r0': rng.choice([0, 3]), 'ops': ops}
+        continue
       nc = rng.choice([1, 2, 3, 4, 5, 8, 13, 30]) if rng.random() < 0.6 else rng.randrange(1, 31)
       ids = gen_ids(rng, nc)
       backend = rng.choice(['mem', 'sqlite'])
@@ -138,15 +233,21 @@ class C13(core.Property):
       ops = []
       for _ in range(rng.randrange(1, 7)):
         u = rng.random()
-        if u < 0.55:
+        if u < 0.47:
           ops.append(-1)
+        elif u < 0.57:
+          # a sample() whose dataset loading fails (before anything is yielded, or after j clients), then
+          # usually the caller's plain retry
+          ops.append([-2, rng.choice([0, 0, rng.randrange(0, n)])])
+          if rng.random() < 0.8:
+            ops.append(-1)
         elif u < 0.85:
           ops.append(rng.randrange(0, 8))          # forward/backward/repeated jumps among small rounds
         elif u < 0.95:
           ops.append(rng.choice([10**3, 10**6, 54321, 2**20 + 1]))
         else:
           ops.append(rng.choice([P - 2, P - 1, P, 2**31 - 5]))
-      if -1 not in ops:
+      if -1 not in ops or isinstance(ops[-1], list):
         ops.append(-1)
       yield {'kind': 'get', 'backend': backend, 'ids': ids, 'seed': seed, 'n': n,
              'r0': rng.choice([0, 0, 1, 3, 100]), 'ops': ops}
@@ -159,7 +260,10 @@ class C13(core.Property):
         if -1 in c:
           yield {**case, 'ops': c}
       for i, o in enumerate(ops):
-        if o > 2:
+        if isinstance(o, list):
+          if o[1] > 0:
+            yield {**case, 'ops': ops[:i] + [[-2, 0]] + ops[i + 1:]}
+        elif o > 2:
           yield {**case, 'ops': ops[:i] + [o // 2] + ops[i + 1:]}
       if case['r0'] > 0:
         yield {**case, 'r0': 0}
@@ -172,7 +276,17 @@ class C13(core.Property):
           yield {**case, k: case[k] - 1}
       if case['buffer'] > 1:
         yield {**case, 'buffer': case['buffer'] // 2}
-    ids = case['ids']
+    if 'ids_n' in case:
+      N = case['ids_n']
+      for c in sorted({N // 2, 1000, N - 100, N - 1}):
+        if case['n'] <= c < N:
+          yield {**case, 'ids_n': c}
+      for c in sorted({case['n'] // 2, case['n'] - 10}):
+        if 1 <= c < case['n']:
+          yield {**case, 'n': c}
+      ids = []
+    else:
+      ids = case['ids']
     if len(ids) > 1:
       for i in range(len(ids)):
         c = ids[:i] + ids[i + 1:]
@@ -188,7 +302,10 @@ class C13(core.Property):
     if case['kind'] == 'stream':
       return self._eval_stream(case, ctx)
     cs = self.cs
-    fd, tab = self.dataset(case['backend'], case['ids'])
+    ids_hex = case_ids(case)
+    big = len(ids_hex) >= 500
+    fd, tab = self.dataset(case['backend'], ids_hex)
+    faulty = FaultyData(fd)
     n, seed, r0, ops = case['n'], case['seed'], case['r0'], case['ops']
     problems, corr, key = [], [], None
 
@@ -198,18 +315,50 @@ class C13(core.Property):
       problems.append(msg)
 
     # ---- implementation: the history
-    outs, rounds_at = [], []          # per sample(): observation, round number it was taken at
+    outs, rounds_at = [], []          # per successful sample(): observation, round number it was taken at
+    eff_ops = []                      # the history as it happened (-2 = a sample() that raised while loading)
+    after_failure = set()             # rounds sampled right after a failed sample()
     cur = r0
+    failed_last = False
     try:
-      sampler = cs.UniformGetClientSampler(fd, n, seed, r0)
+      sampler = cs.UniformGetClientSampler(faulty, n, seed, r0)
       for o in ops:
-        if o == -1:
+        if isinstance(o, list):
+          # sample() with a transient failure of the j-th dataset load (get_clients is lazy: j clients were
+          # already yielded). A failed sample() hands out nothing, so it must not consume the round.
+          faulty.arm(min(o[1], n - 1))
+          try:
+            res = sampler.sample()
+          except Exception as e:
+            faulty.disarm()
+            if not faulty.triggered:
+              raise
+            ctx.count('failed_samples')
+            eff_ops.append(-2)
+            failed_last = True
+            if hasattr(sampler, '_round_num') and sampler._round_num != cur:
+              corr.append(f'a sample() that raised {type(e).__name__} at round {cur} left _round_num = '
+                          f'{sampler._round_num}')
+            continue
+          faulty.disarm()         # the implementation did not load that many datasets, or swallowed the error
+          outs.append(self.obs(res))
+          rounds_at.append(cur)
+          eff_ops.append(-1)
+          cur += 1
+          failed_last = False
+        elif o == -1:
           outs.append(self.obs(sampler.sample()))
           rounds_at.append(cur)
+          if failed_last:
+            after_failure.add(cur)
+          failed_last = False
+          eff_ops.append(-1)
           cur += 1
         else:
           sampler.set_round_num(o)
+          eff_ops.append(o)
           cur = o
+          failed_last = False
     except Exception as e:   # the sampler must work for every round of every history
       fail('C13/get/exception', f'history raised {type(e).__name__}: {e}')
       return Outcome(oracle_fail='; '.join(problems), key=key, tags=('get', 'exception'),
@@ -221,7 +370,11 @@ class C13(core.Property):
       if r in by_round and by_round[r] != out:
         fail('C13/get/history-dependent', f'round {r} sampled twice in the history gave different results')
       by_round.setdefault(r, out)
+    rs = sorted(by_round)
+    recheck = set(rs) if not big else set(rs[:2] + rs[-1:]) | (after_failure & set(rs))
     for r, out in sorted(by_round.items()):
+      if r not in recheck:
+        continue
       try:
         fresh = self.obs(cs.UniformGetClientSampler(fd, n, seed, r).sample())
         s2 = cs.UniformGetClientSampler(fd, n, seed, 0)
@@ -232,8 +385,10 @@ class C13(core.Property):
         fail('C13/get/exception', f'fresh sampler at round {r} raised {type(e).__name__}: {e}')
         continue
       if fresh != out:
-        fail('C13/get/history-dependent',
-             f'round {r}: result inside the history differs from a fresh sampler started at round {r}')
+        fail('C13/get/failed-sample-consumed-round' if r in after_failure else 'C13/get/history-dependent',
+             f'round {r}: result inside the history differs from a fresh sampler started at round {r}'
+             + (' (the sample() before it raised while loading its datasets and handed out nothing, so this '
+                f'retry must still be round {r})' if r in after_failure else ''))
       if seated != out:
         fail('C13/get/history-dependent',
              f'round {r}: result differs from a sampler seated at round {r} by set_round_num after a restart')
@@ -243,7 +398,8 @@ class C13(core.Property):
       if len(out) != n:
         fail('C13/get/ids', f'round {r}: cohort has {len(out)} members, expected {n}')
       if len(set(ids)) != len(ids):
-        fail('C13/get/ids', f'round {r}: cohort repeats a client: {ids}')
+        dup = sorted({i for i in ids if ids.count(i) > 1})
+        fail('C13/get/ids', f'round {r}: cohort of {len(ids)} repeats client(s) {dup}')
       for h, rows, k in out:
         try:
           cid = bytes.fromhex(h)
@@ -263,7 +419,7 @@ class C13(core.Property):
 
     # ---- correspondence with the Lean model (oracles = real numpy / jax calls named by the model)
     start = int(np.random.RandomState(seed).randint(1, P - 1))
-    ans = ctx.drv.ask([line('c13.run', start, n, r0, ops)])[0]
+    ans = ctx.drv.ask([line('c13.run', start, n, r0, eff_ops)])[0]
     final_round, mouts = ans
     msamples = [m for m in mouts if m is not None]
     if len(msamples) != len(outs):
@@ -276,8 +432,13 @@ class C13(core.Property):
         continue
       want_ids = [c.hex() for c in np.random.RandomState(npseed).choice(ids_arr, size=n, replace=False)]
       want_keys = [list(k) for k in self.keys_of(rnd, n)]
-      if [x[0] for x in out] != want_ids:
-        corr.append(f'sample #{j}: ids {[x[0] for x in out]} != choice(RandomState({npseed})) = {want_ids}')
+      got_ids = [x[0] for x in out]
+      if got_ids != want_ids:
+        d = next((t for t in range(min(len(got_ids), len(want_ids))) if got_ids[t] != want_ids[t]), None)
+        corr.append(f'sample #{j} (round {rnd}): ids differ from RandomState({npseed}).choice(ids, {n}, replace=False)'
+                    + (f': {got_ids} vs {want_ids}' if n <= 12 else
+                       f' first at position {d}: {got_ids[d] if d is not None else len(got_ids)} vs '
+                       f'{want_ids[d] if d is not None else len(want_ids)}'))
       if [x[2] for x in out] != want_keys:
         corr.append(f'sample #{j}: keys differ from split(PRNGKey({rnd}), {n})')
       ctx.count('oracle_choice_calls')
@@ -296,14 +457,19 @@ class C13(core.Property):
       if not 1 <= ms <= P - 1:
         corr.append(f'lehmer value {ms} outside [1, 2^31-2]')
 
-    jumps = sum(1 for o in ops if o != -1)
-    tags = ('get', case['backend'], f'n={"1" if n == 1 else ("all" if n == len(case["ids"]) else "mid")}',
+    jumps = sum(1 for o in ops if isinstance(o, int) and o >= 0)
+    nfail = eff_ops.count(-2)
+    tags = ('get', case['backend'], f'n={"1" if n == 1 else ("all" if n == len(ids_hex) else "mid")}',
             f'jumps={min(jumps, 3)}', f'samples={min(len(outs), 4)}',
-            'trailing0' if any(h.endswith('00') for h in case['ids']) else 'plain-ids',
-            'biground' if any(o > 10**5 for o in ops) else 'smallround')
+            'trailing0' if any(h.endswith('00') for h in ids_hex) else 'plain-ids',
+            'biground' if any(isinstance(o, int) and o > 10**5 for o in ops) else 'smallround',
+            f'failed-samples={min(nfail, 2)}', f'retries-after-failure={min(len(after_failure), 2)}',
+            f'population={"<500" if not big else len(ids_hex)}')
     return Outcome(oracle_fail='; '.join(problems[:4]) or None, corr_fail='; '.join(corr[:3]) or None,
-                   key=key, nontrivial=len(outs) >= 2 and jumps >= 1, tags=tags,
-                   detail={'impl': outs[:6], 'rounds': rounds_at, 'model': ans, 'start': start})
+                   key=key, nontrivial=len(outs) >= 2 and (jumps >= 1 or nfail >= 1), tags=tags,
+                   detail={'impl': outs[:6] if not big else [[m[0] for m in o] for o in outs[:3]],
+                           'rounds': rounds_at, 'effective_ops': eff_ops,
+                           'model': ans if not big else ans[0], 'start': start})
 
   def _eval_stream(self, case, ctx):
     cs = self.cs
